@@ -745,6 +745,39 @@ func (e *Env) evalCall(n *ast.CallExpr) Val {
 			evalFail("has of %T", v)
 		}
 		return Bool{e.x.mapHas(e.st, m, e.eval(n.Args[1]))}
+	case "mapkept":
+		// mapkept(m): every key present in m at function entry is still present, with the same value (for a map
+		// to bool, used as a set: every member at entry is still a member)
+		// (entries are only ever added): forall k. old(has(m,k)) ==> has(m,k) && m[k] == old(m[k])
+		if e.old == nil {
+			return Bool{"true"}
+		}
+		vn, ok1 := e.eval(n.Args[0]).(MapV)
+		vo, ok2 := e.old.eval(n.Args[0]).(MapV)
+		if !ok1 || !ok2 {
+			evalFail("mapkept needs a map")
+		}
+		q := smtSym(e.x.fresh("mk", "Int"))
+		key := Opaque{Typ: vn.Key, T: q}
+		hasOld := e.x.mapHas(e.old.st, vo, key)
+		hasNew := e.x.mapHas(e.st, vn, key)
+		nv, ov := e.x.mapLoad(e.st, vn, key), e.x.mapLoad(e.old.st, vo, key)
+		if nb, ok := nv.(Bool); ok {
+			// a set (map to bool): members stay members
+			return Bool{"(forall ((" + q + " Int)) (=> (and " + hasOld + " " + ov.(Bool).T + ") (and " + hasNew + " " + nb.T + ")))"}
+		}
+		eq, ok := valEqual(nv, ov)
+		if !ok {
+			evalFail("mapkept: values of this map type cannot be compared")
+		}
+		return Bool{"(forall ((" + q + " Int)) (=> " + hasOld + " (and " + hasNew + " " + eq + ")))"}
+	case "identity":
+		// identity(v): the dynamic type of the interface value v is compared by identity (pointer, integer,
+		// bool, map, func ...), so == on it is exactly equality of representation
+		if iv, ok := e.eval(n.Args[0]).(Iface); ok {
+			return Bool{"(identityboxed " + iv.Tag + ")"}
+		}
+		evalFail("identity needs an interface value")
 	case "isnil":
 		v := e.eval(n.Args[0])
 		c, ok := valEqual(v, nilOf(v))
